@@ -100,7 +100,7 @@ def discharge(obligs, z3_ms=None, use_cvc5=True, parallel=True):
     results = [None] * len(obligs)
     for i, o in enumerate(obligs):
         g = z3.simplify(o.goal) if z3.is_bool(o.goal) else o.goal
-        if z3.is_true(g):
+        if z3.is_true(g) and o.kind != "canary":
             results[i] = dict(name=o.name, kind=o.kind, status="discharged", backend="simplifier", time=0.0, info=None, line=o.line)
             continue
         jobs.append((i, to_smt2(o.hyps, o.goal), z3_ms, use_cvc5))
